@@ -2,20 +2,15 @@
 package lexer
 
 import (
-	"bytes"
 	"errors"
 	"fmt"
 	"io"
 
 	"github.com/moorara/algo/grammar"
 	"github.com/moorara/algo/lexer"
-	"github.com/moorara/algo/lexer/input"
 )
 
-const (
-	errorState = -1
-	bufferSize = 4096
-)
+const errorState = -1
 
 const (
 	ERR     = grammar.Terminal("ERR")     // ERR is the error token.
@@ -46,7 +41,7 @@ const (
 	COMMENT = grammar.Terminal("COMMENT") // COMMENT is the token for single-line and multi-line comments.
 )
 
-// inputBuffer is an interface for the input.Input struct.
+// inputBuffer is an interface for the reader of the input, see textInput.
 type inputBuffer interface {
 	Next() (rune, error)
 	Retract()
@@ -63,32 +58,14 @@ type Lexer struct {
 // New creates a new lexical analyzer for the EBNF language.
 // EBNF (Extended Backus-Naur Form) is used to define context-free grammars and their corresponding languages.
 func New(filename string, src io.Reader) (*Lexer, error) {
-	// The two-buffer reader latches the end of input as soon as it has handed out the last byte,
-	// and it does not undo that when the byte is retracted, so a token consisting of the very last
-	// character of the input would be lost. It also takes a short read for the end of input.
-	// Reading the source completely and terminating it with a newline avoids both.
-	content, err := io.ReadAll(src)
-	if err != nil {
-		return nil, err
-	}
-
-	content = append(content, '\n')
-
-	// The reader loads a buffer half whenever its forward pointer arrives at the end of the other half,
-	// also when it arrives there again after a retraction, which would drop a whole half of the input.
-	// A half that holds the complete text (and the end marker after it) is never left.
-	size := bufferSize
-	if len(content) >= size {
-		size = len(content) + 1
-	}
-
-	in, err := input.New(filename, bytes.NewReader(content), size)
+	// The specification is read completely and scanned in memory, see textInput.
+	text, err := io.ReadAll(src)
 	if err != nil {
 		return nil, err
 	}
 
 	return &Lexer{
-		in: in,
+		in: newTextInput(filename, text),
 	}, nil
 }
 
